@@ -88,6 +88,53 @@ func (s *setSubj[T]) Algebra(otherS Subject, op Op, o *Oracle) bool {
 		o.Fail("C13", "operand-changed", "%s changed an operand:\n a before %s\n a after  %s\n b before %s\n b after  %s", op.N, obsA, a2, obsB, b2)
 		return false
 	}
+	// chaining: the result is a set of the same kind carrying the operands' comparator, so it combines with
+	// the operands and with other results like any other set
+	{
+		cr := map[string]bool{}
+		for _, c := range want {
+			cr[c] = true
+		}
+		chain := []struct {
+			name string
+			got  []T
+			want func(c string, inRes, inRecv bool) bool
+		}{
+			{"result.Intersection(receiver)", setAlgebra[T](res, recv.s, "Intersection").Values(), func(_ string, r, a bool) bool { return r && a }},
+			{"receiver.Union(result)", setAlgebra[T](recv.s, res, "Union").Values(), func(_ string, r, a bool) bool { return r || a }},
+			{"argument.Difference(result)", setAlgebra[T](arg.s, res, "Difference").Values(), nil},
+		}
+		for _, ch := range chain {
+			var w []string
+			all := map[string]bool{}
+			for c := range ca {
+				all[c] = true
+			}
+			for c := range cb {
+				all[c] = true
+			}
+			for c := range all {
+				keep := false
+				if ch.want != nil {
+					keep = ch.want(c, cr[c], ca[c])
+				} else {
+					keep = cb[c] && !cr[c]
+				}
+				if keep {
+					w = append(w, c)
+				}
+			}
+			sort.Strings(w)
+			if w == nil {
+				w = []string{}
+			}
+			g := sortedStrings(mapS(ch.got, s.class))
+			if !slices.Equal(g, w) {
+				o.Fail("C13", "chained-algebra", "%s(%s, %s) = %v; then %s gives %v, want %v", op.N, recv.canon(recv.m), arg.canon(arg.m), want, ch.name, g, w)
+				return false
+			}
+		}
+	}
 	// independence 1: mutate the result
 	x, y := s.d.At(derive(op.ID, 1, len(s.d.Tab))), s.d.At(derive(op.ID, 2, len(s.d.Tab)))
 	res.Add(x, y)
